@@ -13,6 +13,50 @@ package token
 //@   ensures [equiv] matches(x, regexSimpleFn) <==>
 //@        inLang(x, reAnd(reCat(goTokenL(), reLit("("), reFull("(?s:.)*"), reLit(")")), reNot(reFull("(?s:.)*\n(?s:.)*"))))
 
+// ---- C03: left-to-right pairing of % delimiters into chunks.
+// joinTo(r, k) is r[0] + ... + r[k-1] (definitional recursion); it depends on the first k elements only (lemma
+// join_frame, by induction on k).
+//@ spec joinTo(r []string, k int) string
+//@ axiom [join_0] forall r []string :: joinTo(r, 0) == ""
+//@ axiom [join_step] forall r []string, k int :: 0 <= k && k < len(r) ==> joinTo(r, k + 1) == joinTo(r, k) + r[k]
+//@ lemma join_frame(r1 []string, r2 []string, k int)
+//@   property C03
+//@   induction k
+//@   requires k <= len(r1) && k <= len(r2) && (forall j int :: 0 <= j && j < k ==> r1[j] == r2[j])
+//@   ensures [same_prefix_same_join] joinTo(r1, k) == joinTo(r2, k)
+
+// pct(s, i): how many of the first i bytes of s are "%" (definitional recursion); a stretch without "%" does not
+// change the count (lemma pct_skip, by induction on its length).
+//@ spec pct(s string, i int) int
+//@ axiom [pct_0] forall s string :: pct(s, 0) == 0
+//@ axiom [pct_step] forall s string, i int :: 0 <= i && i < len(s) ==> pct(s, i + 1) == pct(s, i) + (substr(s, i, 1) == "%" ? 1 : 0)
+//@ lemma pct_skip(s string, p int, w int)
+//@   property C03
+//@   induction w
+//@   requires 0 <= p && p + w <= len(s) && !contains(substr(s, p, w), "%")
+//@   ensures [no_delimiter_no_change] pct(s, p + w) == pct(s, p)
+
+// a chunk is either a non-empty literal without "%", or a token: "%", anything without "%", "%"
+//@ spec chunkOK(c string) bool = c != "" && (!contains(c, "%")
+//@      || (len(c) >= 2 && hasPrefix(c, "%") && hasSuffix(c, "%") && !contains(substr(c, 1, len(c) - 2), "%")))
+
+// Chunks cuts the string, it neither drops nor adds nor reorders text: the chunks concatenate to the input, and each is
+// a literal or a %...% token ("%%" included). (A7: the input is valid UTF-8, as YAML guarantees.)
+//@ func (*Chunker).Chunks pure
+//@   property C03 C12
+//@   uses join_frame pct_skip
+//@   ensures [unbalanced_delimiter_is_an_error] (result.1 != nil) <==> pct(s, len(s)) % 2 == 1
+//@   ensures [empty_is_one_empty_chunk] s == "" ==> result.1 == nil && len(result.0) == 1 && result.0[0] == ""
+//@   ensures [chunks_concatenate_to_input] result.1 == nil ==> joinTo(result.0, len(result.0)) == s
+//@   ensures [chunks_are_literals_or_tokens] result.1 == nil && s != "" ==> (forall k int :: 0 <= k && k < len(result.0) ==> chunkOK(result.0[k]))
+//@   loop 1
+//@     invariant [pos] 0 <= $i && $i <= len(s)
+//@     invariant [consumed] joinTo(r, len(r)) + buff == substr(s, 0, $i)
+//@     invariant [opened_iff] opened <==> hasPrefix(buff, "%")
+//@     invariant [opened_parity] opened <==> pct(s, $i) % 2 == 1
+//@     invariant [one_delimiter_at_most] !contains(substr(buff, 1, len(buff) - 1), "%")
+//@     invariant [chunks_ok] forall k int :: 0 <= k && k < len(r) ==> chunkOK(r[k])
+
 // ---- C03: chunks are classified by the first factory that supports them; each class compiles as documented.
 
 //@ interface tokenFactoryStrategy.Supports(expr string) bool pure
